@@ -31,8 +31,9 @@ CHECKS = {
     "C03": fam("Monitor tags C03:IdleBound (a live, non-excused entity is never idle longer than the bound fixed by its timeouts and limit since the last PDU delivered to it; "
                "blackouts of either direction at every point) and C03:NoSpin (a timeout handler never leaves the loop's sleep at zero).", "DESIGN.md 6.3"),
     "C04": fam("Monitor tags C04:FileChanged / RequestsRedone / IntegrityFaultAfterDelivery / SenderSuccessWithoutDelivery after the receiver's first success indication, "
-               "under duplication, reordering and delay of every PDU, including non-idempotent filestore requests.", "DESIGN.md 6.4"),
-    "C07": fam("Monitor tags C07:Header / DataContent / UnsolicitedData / MetadataWrong / EofWrong / EofBeforeData over every PDU the sender hands to the transport (bytes "
+               "under duplication, reordering and delay of every PDU, including non-idempotent filestore requests (request-only transactions in all modes). Consequences of the "
+               "recorded unacknowledged-mode finding (a respawned receiver delivering again) are reported as KNOWN-FINDING.", "DESIGN.md 6.4"),
+    "C07": fam("Monitor tags C07:Header / DataContent / UnsolicitedData / NakNotAnswered / MetadataWrong / EofWrong / EofBeforeData over every PDU the sender hands to the transport (bytes "
                "compared with the source by the projector; every data PDU is the next first-pass tile or a pending NAK piece), including adversarial NAK lists "
                "(overlapping, empty, inverted, beyond EOF).", "DESIGN.md 6.7"),
     "C08": fam("Monitor tags C08:NakWellFormed / DeferredQuiet / NakCoversMissing / NakAsksForHeld over every NAK the receiver emits, against the set of bytes the link "
@@ -45,7 +46,7 @@ CHECKS = {
              "and every return value (merge, is_complete for every n, gaps for every window, stored ranges) compared, also under stretched coordinate maps reaching 2^64-1. "
              "Bounded-exhaustive refinement check of the real structure.",
         design_ref="DESIGN.md 6.9", note="Trusted: TLC, the TLA+ value parser, the coordinate map of the harness. Bounds: M=6/depth 4 (quick), M=8/depth 5 (thorough)."),
-    "C10": fam("Monitor tags C10:NoPartialFile / CancelEnds / CancelReported with a user cancel at either entity at every point, single losses and blackouts, both modes, "
+    "C10": fam("Monitor tags C10:NoPartialFile / DeliveredAfterCancel / CancelEnds / CancelReported with a user cancel at either entity at every point, single losses and blackouts, both modes, "
                "closure on/off.", "DESIGN.md 6.10"),
     "C11": dict(
         engine="tlc-daemon", category="model_checking",
@@ -71,7 +72,8 @@ CHECKS = {
         text="Part 1: Filestore.tla defines status and effect of the nine requests as a function of the filesystem state; TLC checks FailureChangesNothing and FailTheRest and "
              "prints the graph of all request sequences up to a depth over {2 files, a directory with an entry, free names}; every sequence is executed on a real temp tree, "
              "status octet and whole tree compared. Part 2: tags C13:RequestsOutsideDelivery / ResponsesDiffer of the transaction monitor (requests run once, only at the "
-             "successful delivery, same responses at both users and in the Finished PDU).",
+             "successful delivery, one response per request, same responses at both users and in the Finished PDU). Consequences of the recorded unacknowledged-mode finding are "
+             "reported as KNOWN-FINDING.",
         design_ref="DESIGN.md 6.13", note="Status codes follow the code base and its own tests (Deny of a missing name = NotAllowed). Local POSIX filesystem without permission faults."),
     "C14": dict(
         engine="tlc-small", category="model_checking",
@@ -92,7 +94,7 @@ CHECKS = {
                "C17:HandlerAsConfigured (ignore / suspend / abandon / cancel), over timeout grids, blackouts and every handler map.", "DESIGN.md 6.17"),
     "C18": fam("Monitor tags C18:OneWay / EndsOnEof / ClosureFinished / ClosureTruthful / ClosureSenderWaits / ClosureReported / IncompleteNotComplete in unacknowledged mode "
                "with closure on/off. One recorded finding (the unacknowledged receiver has no completeness test) is reported as KNOWN-FINDING.", "DESIGN.md 6.18"),
-    "C19": fam("Monitor tags C19:QuietWhileSuspended / NoFaultWhileSuspended with suspend and resume at either entity at every point; completion after resume through "
+    "C19": fam("Monitor tags C19:QuietWhileSuspended / NoFaultWhileSuspended / TimersFrozen with suspend and resume at either entity at every point; completion after resume through "
                "C02:RecoversOK.", "DESIGN.md 6.19"),
     "C20": fam("Monitor tags C20:ReceiverProgress (= number of distinct bytes the link delivered) / SenderProgress (= highest first-pass offset emitted) on KeepAlive PDUs "
                "and Fault / Resumed / Abandon indications, with prompts and suspend/resume at every point.", "DESIGN.md 6.20"),
